@@ -307,6 +307,29 @@ def r3_format(toks, counts, names=('format',)):
     return out
 
 
+def r3b_anyhow_macro(toks, counts):
+    """what R21 leaves: `anyhow::anyhow!(..)` -> `opaque_anyhow_val()` (an error value whose text is irrelevant)"""
+    out = []
+    i = 0
+    n = len(toks)
+    while i < n:
+        t = toks[i]
+        if is_id(t, 'anyhow') and i + 3 < n and is_p(toks[i + 1], ':') and is_p(toks[i + 2], ':') and is_id(toks[i + 3], 'anyhow'):
+            bang = next_sig(toks, i + 4)
+            if bang < n and is_p(toks[bang], '!'):
+                op = next_sig(toks, bang + 1)
+                if op < n and toks[op][0] == 'p' and toks[op][1] in '([{':
+                    # `anyhow::anyhow!(..)`: an error value whose text is irrelevant
+                    cl = match_close(toks, op)
+                    counts['R3'] = counts.get('R3', 0) + 1
+                    out += [('id', 'opaque_anyhow_val'), ('p', '('), ('p', ')')]
+                    i = cl + 1
+                    continue
+        out.append(t)
+        i += 1
+    return out
+
+
 def r4_ref_patterns(toks, counts):
     """inside match-arm patterns (before `=>` / guard `if`), `&Path {` / `&Path (` -> `Path {` / `Path (` when the
     `&` directly follows `(` or `,` (i.e. a component of a tuple pattern)."""
@@ -2327,6 +2350,14 @@ R29_FORMS = {
     'is_some_and': ('Some(%s)', '%s', 'None => false'),
     'is_ok_and': ('Ok(%s)', '%s', 'Err(_) => false'),
     'and_then': ('Some(%s)', '%s', 'None => None'),
+    # only Result has map_err, only Option has ok_or_else: the closure becomes the other arm
+    'map_err': ('Ok(r29_v) => Ok(r29_v)', 'Err(%s) => Err(%s)', None),
+    'ok_or_else': ('Some(r29_v) => Ok(r29_v)', 'None => Err(%s)', None),
+}
+R29_RESULT_FORMS = {
+    # region option R29res: and_then / map on a Result
+    'and_then': ('Ok(%s)', '%s', 'Err(r29_e) => Err(r29_e)'),
+    'map': ('Ok(%s)', 'Ok(%s)', 'Err(r29_e) => Err(r29_e)'),
 }
 
 
@@ -2343,7 +2374,10 @@ def r29_inline_combinators(toks, counts, extra=()):
     closure parameter and body are the source's own tokens.  Closures containing `return`/`?` or typed parameters are left alone."""
     FORMS = dict(R29_FORMS)
     for e in extra:
-        FORMS[e] = R29_OPTIONAL[e]
+        if e == 'result':
+            FORMS.update(R29_RESULT_FORMS)
+        else:
+            FORMS[e] = R29_OPTIONAL[e]
     changed = True
     while changed:
         changed = False
@@ -2359,6 +2393,10 @@ def r29_inline_combinators(toks, counts, extra=()):
                     if op < n and is_p(toks[op], '('):
                         cl = match_close(toks, op)
                         c = _parse_closure(toks[op + 1:cl])
+                        arg_sig = [x for x in toks[op + 1:cl] if x[0] not in TRIVIA]
+                        if c is None and toks[nx][1] in ('and_then', 'map') and arg_sig and all(x[0] == 'id' or is_p(x, ':') for x in arg_sig) and arg_sig[0][0] == 'id':
+                            # a function path in place of a closure: `f` is `|v| f(v)`
+                            c = ('r29_v', rtok.tokenize('%s(r29_v)' % _flat(toks[op + 1:cl])))
                         # innermost first: the closure body must not itself contain a combinator call still to be rewritten
                         if c is not None and not any(x[0] == 'id' and x[1] in FORMS for x in c[1]):
                             try:
@@ -2371,7 +2409,12 @@ def r29_inline_combinators(toks, counts, extra=()):
                                 recv = _flat(out[start:])
                                 ind0 = _indent_of_line_containing(out, start)
                                 I1 = ind0 + '    '
-                                txt = 'match %s {\n%s%s => %s,\n%s%s,\n%s}' % (recv, I1, form[0] % pat, form[1] % _body_text(body, I1), I1, form[2], ind0)
+                                if form[2] is None:
+                                    # the closure is the *other* arm (map_err / ok_or_else)
+                                    second = form[1] % ((pat, _body_text(body, I1)) if form[1].count('%s') == 2 else (_body_text(body, I1),))
+                                    txt = 'match %s {\n%s%s,\n%s%s,\n%s}' % (recv, I1, form[0], I1, second, ind0)
+                                else:
+                                    txt = 'match %s {\n%s%s => %s,\n%s%s,\n%s}' % (recv, I1, form[0] % pat, form[1] % _body_text(body, I1), I1, form[2], ind0)
                                 after = next_sig(toks, cl + 1)
                                 if after < n and (is_p(toks[after], '.') or is_p(toks[after], '?')):
                                     # the chain goes on: the match becomes a parenthesised receiver
@@ -2386,6 +2429,36 @@ def r29_inline_combinators(toks, counts, extra=()):
             i += 1
         toks = out
     return toks
+
+
+def r30_const_static_lifetime(toks, counts):
+    """`const X: &T = ..` / `static X: &T = ..` -> `&'static T`: the elided lifetime of a const/static item is `'static`
+    (Rust reference); inside `verus!` it has to be written"""
+    sig = [i for i, t in enumerate(toks) if t[0] not in TRIVIA]
+    if not sig:
+        return toks
+    k = 0
+    if is_id(toks[sig[k]], 'pub'):
+        k += 1
+        if k < len(sig) and is_p(toks[sig[k]], '('):
+            k = next(i for i, idx in enumerate(sig) if idx == match_close(toks, sig[k])) + 1
+    if k >= len(sig) or not (is_id(toks[sig[k]], 'const') or is_id(toks[sig[k]], 'static')):
+        return toks
+    out = []
+    in_type = False
+    for i, t in enumerate(toks):
+        out.append(t)
+        if is_p(t, ':') and not in_type:
+            in_type = True
+        elif is_p(t, '=') and in_type:
+            in_type = None   # done
+        elif in_type and is_p(t, '&'):
+            nx = next_sig(toks, i + 1)
+            if nx < len(toks) and toks[nx][0] != 'life':
+                out.append(('life', "'static"))
+                out.append(('ws', ' '))
+                counts['R30'] = counts.get('R30', 0) + 1
+    return out
 
 
 def cleanup_lines(text):
@@ -2447,8 +2520,10 @@ def extract_region(src_text, path, opts=None):
                 item = r24_name_tail_expr(item, counts)
             if 'R26' not in opts.get('skip', ()):
                 item = r26_iter_chains(item, counts)
+            item = r21_map_err_anyhow(item, counts)
+            item = r3b_anyhow_macro(item, counts)
             if 'R29' not in opts.get('skip', ()):
-                item = r29_inline_combinators(item, counts, extra=('map',) if 'R29map' in opts.get('rules', ()) else ())
+                item = r29_inline_combinators(item, counts, extra=(('map',) if 'R29map' in opts.get('rules', ()) else ()) + (('result',) if 'R29res' in opts.get('rules', ()) else ()))
             if 'R28' in opts.get('rules', ()):
                 item = r28_closure_signatures(item, counts, opts.get('r28_sigs', []))
             item = r21_map_err_anyhow(item, counts)
@@ -2456,6 +2531,7 @@ def extract_region(src_text, path, opts=None):
             item = r10b_if_continue(item, counts)
             item = r10c_continue_flag(item, counts)
             item = r13_binders(item, counts)
+    item = r30_const_static_lifetime(item, counts)
     if 'R10' in opts.get('rules', ()):
         item = r10_trailing_continue(item, counts)
     if 'R15' in opts.get('rules', ()):
